@@ -36,6 +36,7 @@ impl Deserialize for ConstrPlutusData {
                     let data =
                         (|| -> Result<_, DeserializeError> { Ok(PlutusList::deserialize(raw)?) })()
                             .map_err(|e| e.annotate("datas"))?;
+                    read_len.finish()?;
                     match len {
                         cbor_event::Len::Len(_) => (),
                         cbor_event::Len::Indefinite => match raw.special()? {
